@@ -17,6 +17,7 @@ class World:
         self.fault = None  # {'hook':..., 'occ':..., 'pos': 'pre'|'post', 'pid':..}  (C03)
         self.fault_fired = None
         self.listener_plan = {}  # pid -> list of {'on':notif,'occ':n,'do':[...]}
+        self.hook_plan = {}  # pid -> list of {'hook':..,'occ':n,'pos':'pre'|'post','do':[...]}: control calls issued from lifecycle hooks
         self.listener_counts = {}
         self.listener_fault = None  # {'on': notif, 'occ': n}
         self.incarnation = {}  # pid -> int (bumped by restores)
